@@ -1,6 +1,7 @@
 package main
 
 import (
+	"fmt"
 	L "github.com/evanw/esbuild/verifharness/c18lib"
 	. "github.com/evanw/esbuild/verifharness/hlib"
 )
@@ -79,6 +80,48 @@ func glueTargeted(st *Stats) {
 		run("asset-bytes", pa, func(p *L.Project) { p.Assets["i.png"] = "PNG2" })
 		run("public-path", pa, func(p *L.Project) { p.Opt.PublicPath = "https://cdn.example.com/y/" })
 		run("asset-names", pa, func(p *L.Project) { p.Opt.AssetNames = "media/[name]-[hash]" })
+	}
+	// source-map mode x edits that reach the source map but not the code, on a
+	// splitting project with a shared chunk, a dynamic import and CSS, every
+	// name template hashed: whatever the mode, a path emitted by both builds
+	// carries the same bytes
+	for _, mode := range []string{"", "linked", "external", "inline", "both"} {
+		mk := func() *L.Project {
+			p := &L.Project{
+				Mods: []L.Module{
+					{Name: "a.js", Lit: "a", Static: []int{2}, Dynamic: []int{3}, CSS: []string{"s.css"}, Comment: "note a1"},
+					{Name: "b.js", Lit: "b", Static: []int{2}, Comment: "note b1"},
+					{Name: "shared.js", Lit: "s", Comment: "note s1"},
+					{Name: "dyn.js", Lit: "d", Comment: "note d1"}},
+				CSS:    []L.CSSFile{{Name: "s.css", Color: "red", Comment: "css note 1"}, {Name: "t.css", Color: "blue", Comment: "css note 2"}},
+				Assets: map[string]string{}, Opt: baseOpt("a.js", "b.js", "t.css")}
+			p.Opt.ChunkNames = "chunks/[name]-[hash]"
+			p.Opt.Sourcemap = mode
+			return p
+		}
+		tag := "sourcemap=" + mode + "/"
+		for mi := 0; mi < 4; mi++ {
+			mi := mi
+			run(tag+"comment-same-length-js-"+fmt.Sprint(mi), mk(), func(p *L.Project) {
+				c := []byte(p.Mods[mi].Comment)
+				c[len(c)-1] = '2'
+				p.Mods[mi].Comment = string(c)
+			})
+		}
+		for ci := 0; ci < 2; ci++ {
+			ci := ci
+			run(tag+"comment-same-length-css-"+fmt.Sprint(ci), mk(), func(p *L.Project) {
+				c := []byte(p.CSS[ci].Comment)
+				c[len(c)-1] = '7'
+				p.CSS[ci].Comment = string(c)
+			})
+		}
+		run(tag+"comment-added-line", mk(), func(p *L.Project) { p.Mods[2].Comment += "\n// one more line" })
+		run(tag+"sources-content-toggle", mk(), func(p *L.Project) { p.Opt.NoSrcContent = true })
+		run(tag+"source-root", mk(), func(p *L.Project) { p.Opt.SourceRoot = "https://root.example/src/" })
+		pm := mk()
+		pm.Opt.NoSrcContent = true
+		run(tag+"mappings-only", pm, func(p *L.Project) { p.Mods[0].Comment += "\n// shifts the lines" })
 	}
 	// placeholder-like text in the inputs next to real references
 	{
